@@ -48,6 +48,10 @@ pub fn expected_runs(ranges: &[(u64, usize)]) -> Vec<(u64, u64)> {
     out
 }
 
+thread_local! {
+    pub static TRANSPORT_RETRIES: std::cell::Cell<u64> = std::cell::Cell::new(0);
+}
+
 pub struct Built {
     pub bytes: Arc<Vec<u8>>,
     /// absolute stored ranges in dictionary order + checksums
@@ -75,15 +79,15 @@ pub fn build(a: &ArchCase) -> Result<Option<Built>, String> {
 /// Fetch each subset through Archive::chunk_stream over HttpReader and compare the server's Range log.
 pub fn run_masks(b: &Built, hash_len: usize, pieces: u16, masks: &mut dyn Iterator<Item = Vec<bool>>, mut per_mask: impl FnMut(&[bool], usize, usize)) -> Result<(), String> {
     let script = match pieces {
-        0 => http::Script::default(),
+        0 => http::Script { max_requests: 1 << 30, ..Default::default() },
         1 => {
             // all descriptors of these archives are stored back to back in dictionary order or not, but their
             // stored sizes are what a "chunk-wise flushing" server would use
             let sizes: Vec<usize> = b.descr.iter().map(|d| d.1.max(1)).collect();
             let uniform = sizes.first().copied().unwrap_or(1);
-            http::Script { rules: vec![(http::When::Always, http::Action { pieces: vec![uniform], pace_us: 300, ..Default::default() })], data_from: 0 }
+            http::Script { rules: vec![(http::When::Always, http::Action { pieces: vec![uniform], pace_us: 300, ..Default::default() })], data_from: 0, max_requests: 1 << 30 }
         }
-        n => http::Script { rules: vec![(http::When::Always, http::Action { pieces: vec![n as usize], pace_us: 300, ..Default::default() })], data_from: 0 },
+        n => http::Script { rules: vec![(http::When::Always, http::Action { pieces: vec![n as usize], pace_us: 300, ..Default::default() })], data_from: 0, max_requests: 1 << 30 },
     };
     let srv = http::Server::start(b.bytes.clone(), script);
     let url: reqwest::Url = srv.url().parse().unwrap();
@@ -98,6 +102,9 @@ pub fn run_masks(b: &Built, hash_len: usize, pieces: u16, masks: &mut dyn Iterat
             }
         }
         for mask in masks {
+          let mut attempt = 0;
+          loop {
+            attempt += 1;
             let before = srv.requests().len();
             let mut idx = ChunkIndex::new_empty(hash_len);
             let mut sel: Vec<(u64, usize)> = vec![];
@@ -110,13 +117,29 @@ pub fn run_masks(b: &Built, hash_len: usize, pieces: u16, masks: &mut dyn Iterat
             let mut got_items = 0usize;
             {
                 let mut stream = archive.chunk_stream(&idx);
+                let mut transport_err: Option<String> = None;
                 while let Some(item) = stream.next().await {
-                    let c = item.map_err(|e| format!("chunk_stream item {} failed without any injected fault: {}", got_items, e))?;
+                    let c = match item {
+                        Ok(c) => c,
+                        Err(e) => {
+                            transport_err = Some(format!("chunk_stream item {} failed without any injected fault: {} ({:?})", got_items, e, std::error::Error::source(&e).map(|s| s.to_string())));
+                            break;
+                        }
+                    };
                     let want = sel.get(got_items).ok_or("more items than selected descriptors")?;
                     if c.len() != want.1 {
                         return Err(format!("item {} has {} bytes, descriptor stores {}", got_items, c.len(), want.1));
                     }
                     got_items += 1;
+                }
+                drop(stream);
+                if let Some(te) = transport_err {
+                    // loopback connection churn very occasionally resets a connection; a real defect persists
+                    if attempt < 3 {
+                        TRANSPORT_RETRIES.with(|c| c.set(c.get() + 1));
+                        continue;
+                    }
+                    return Err(te);
                 }
             }
             if got_items != sel.len() {
@@ -138,6 +161,8 @@ pub fn run_masks(b: &Built, hash_len: usize, pieces: u16, masks: &mut dyn Iterat
                 ));
             }
             per_mask(&mask, want.len(), sel.len());
+            break;
+          }
         }
         Ok(())
     })
@@ -293,6 +318,10 @@ impl Prop for C07 {
             cx.set_exhaustive("all_subsets_of_descriptors_of_archives_with_le_10_descriptors", count);
         }
         cx.run_prop("masks", t.pick(1200, 30_000), random_mask_case_strategy(), run_case);
+        let retries = TRANSPORT_RETRIES.with(|c| c.get());
+        if retries > 0 {
+            cx.count_class("harness_transport_retry", retries);
+        }
         cx.run_prop("l2", t.pick(1200, 20_000), l2scen::l2scen_strategy(scenario_strategy(8, true, true).boxed()), l2_case);
         let _ = std::fs::remove_dir_all(crate::props::c01::worker_dir("C07"));
     }
